@@ -21,11 +21,11 @@ package verifhook
 
 import "sync/atomic"
 
-// Func is called at every hook point with the name of the point and an
-// identifier of the object the goroutine is working on (an address, a
-// pointer rendered as string, ...). It may block (scheduler gate) and/or
-// record an event (tracer).
-type Func func(point string, id string)
+// Func is called at every hook point with the name of the point and up to
+// two objects the goroutine is working on (pointers; the harness maps them to
+// model identities through the verif-tagged export files of each package).
+// It may block (scheduler gate) and/or record an event (tracer).
+type Func func(point string, a, b interface{})
 
 var cur atomic.Value // Func
 
@@ -42,9 +42,17 @@ func Set(fn Func) {
 }
 
 // At is called by instrumented code.
-func At(point string, id string) {
+func At(point string, a interface{}) {
 	fn, _ := cur.Load().(Func)
 	if fn != nil {
-		fn(point, id)
+		fn(point, a, nil)
+	}
+}
+
+// At2 is At with a second object.
+func At2(point string, a, b interface{}) {
+	fn, _ := cur.Load().(Func)
+	if fn != nil {
+		fn(point, a, b)
 	}
 }
